@@ -38,13 +38,42 @@ def _walk_own(fnode):
             todo.append(c)
 
 
+def _is_pymodel(filename):
+    return '/pymodels/' in filename.replace('\\', '/')
+
+
+def join_slist(interp, sep, xs):
+    """str.join over a symbolic-length sequence: interpreted from the Python model in pymodels/str_model.py
+    with the loop invariant attached to the call site, keyed 'join#k' (k-th such join of the function)."""
+    from .pymodels import str_model
+    target = None
+    for fr in reversed(interp.frame_stack):
+        if not _is_pymodel(fr.info.filename):
+            target = fr
+            break
+    if target is None:
+        return NotImplemented
+    k = target.join_counter
+    target.join_counter = k + 1
+    if (target.info.filename, target.info.qualname, 'join#%d' % k) not in interp.reg.loops_by_key:
+        return NotImplemented        # no call-site invariant: the caller falls back to the algebraic model
+    saved = target.model_site
+    target.model_site = 'join#%d' % k
+    try:
+        return interp.call(str_model.join, [sep, xs], {})
+    finally:
+        target.model_site = saved
+
+
 def find_spec(interp, frame, node):
     ordinal = loop_ordinal(frame.info, node)
-    if frame.info.filename.endswith('functools_model.py'):
+    if _is_pymodel(frame.info.filename):
         # library model: the invariant belongs to the call site (the nearest repository frame)
         for fr in reversed(interp.frame_stack):
-            if not fr.info.filename.endswith('functools_model.py'):
-                key = 'reduce#%d' % fr.reduce_site
+            if not _is_pymodel(fr.info.filename):
+                if fr.model_site is None and fr.reduce_site is None:
+                    return None, ordinal      # an ordinary loop of a Python-level model (no call-site spec)
+                key = fr.model_site if fr.model_site is not None else 'reduce#%d' % fr.reduce_site
                 spec = _pick(interp, interp.reg.loops_by_key.get((fr.info.filename, fr.info.qualname, key)))
                 return spec, key
         return None, ordinal
@@ -115,10 +144,10 @@ def _env_of(interp, frame, extra):
     env = {'ghost': interp.st.ghost, 'trace': interp.st.trace}     # ghost state / events (unless shadowed by a local)
     if interp.collect is not None:
         env['yielded'] = interp.collect[1]
-    if frame.info.filename.endswith('functools_model.py'):
+    if _is_pymodel(frame.info.filename):
         # library model: the call site's names are visible to the invariant
         for fr in reversed(interp.frame_stack):
-            if not fr.info.filename.endswith('functools_model.py'):
+            if not _is_pymodel(fr.info.filename):
                 for d in fr.enclosing:
                     env.update(d)
                 env.update(fr.locals)
@@ -127,8 +156,10 @@ def _env_of(interp, frame, extra):
         env.update(d)
     env.update(frame.locals)
     env.update(interp.reg.ghost_env)
-    # ghost state / ghost event trace of the path (as in contract clauses); a local of that name wins
-    env.setdefault('ghost', interp.st.ghost)
+    env['ghost'] = interp.st.ghost       # ghost (monitor) state of models and contracts
+    # indices of the (enclosing) loops with invariants: `_i_<ordinal>`
+    for o, t in getattr(frame, 'loop_index', {}).items():
+        env['_i_%s' % o] = t
     env.setdefault('trace', interp.st.trace)
     env.update(extra)
     return env
@@ -143,6 +174,8 @@ def _havoc(interp, frame, spec, modified_names, tag):
         if ty is None:
             raise Unsupported('loop %s#%s assigns %r which is not declared in modifies'
                               % (spec.qname, spec.ordinal, name))
+        if ty == 'in-place':
+            continue
         if ty == 'local':      # a loop-local temporary: dead at loop head
             frame.locals.pop(name, None)
             continue
@@ -210,6 +243,18 @@ def _havoc(interp, frame, spec, modified_names, tag):
             # ghost state (interp.st.ghost) changed by models/contracts called in the body
             interp.st.ghost[name[6:]] = ty.make(interp, '%s@%s' % (name, tag))
             continue
+        if ty == 'in-place':
+            # a mutable object (symbolic map, or instance holding one) changed by calls in the body:
+            # its contents are forgotten, its identity is kept
+            obj = frame.locals.get(name) if '.' not in name else None
+            if obj is None and '.' in name:
+                base, _, attr = name.partition('.')
+                obj = frame.locals.get(base)
+                for a in attr.split('.'):
+                    obj = interp.getattr(obj, a) if obj is not None else None
+            if obj is None or not models.havoc_mutable(interp, obj, '%s@%s' % (name, tag)):
+                raise Unsupported('modifies entry %r (in-place): nothing to havoc' % name)
+            continue
         if name == 'yielded':
             continue
         if name not in modified_names and ty != 'local' and not name.startswith('@'):
@@ -217,6 +262,17 @@ def _havoc(interp, frame, spec, modified_names, tag):
                 # object field:  'self._x' / 'self._o.segments'
                 parts = name.split('.')
                 obj = frame.locals.get(parts[0])
+                if obj is None:
+                    for d in reversed(frame.enclosing):      # a variable of an enclosing function
+                        if parts[0] in d:
+                            obj = d[parts[0]]
+                            break
+                if obj is None and _is_pymodel(frame.info.filename):
+                    # library model: the names of the call site
+                    for fr in reversed(interp.frame_stack):
+                        if not _is_pymodel(fr.info.filename):
+                            obj = fr.locals.get(parts[0])
+                            break
                 if obj is None:
                     raise Unsupported('modifies entry %r: unknown base' % name)
                 for a in parts[1:-1]:
@@ -383,6 +439,9 @@ def _for_symbolic(interp, node, frame, src):
                           % (frame.info.qualname, node.lineno))
     fname = interp.current_function_name()
     label = '%s : loop#%s' % (fname, ordinal)
+    if '.<locals>.' in frame.info.qualname and not _is_pymodel(frame.info.filename):
+        # a loop of a nested function: ordinals count per function
+        label = '%s : %s loop#%s' % (fname, frame.info.qualname.rpartition('.<locals>.')[2], ordinal)
     modified, _targets = _check_frame(spec, node)
     enum_start = None
     it_cell = None
@@ -398,8 +457,10 @@ def _for_symbolic(interp, node, frame, src):
         start = z3.IntVal(0)
     n = xs.length
 
+    entry = _call_pred(interp, spec.entry, _env_of(interp, frame, {})) if getattr(spec, 'entry', None) else None
+
     def env(i):
-        e = {'_i': wrap(i), '_xs': xs, '_n': wrap(n), '_start': wrap(start)}
+        e = {'_i': wrap(i), '_xs': xs, '_n': wrap(n), '_start': wrap(start), '_entry': entry}
         if interp.loop_index_stack:
             e['_o'] = wrap(interp.loop_index_stack[-1])      # index of the enclosing symbolic loop
         return _env_of(interp, frame, e)
@@ -415,6 +476,7 @@ def _for_symbolic(interp, node, frame, src):
         if isinstance(ordinal, int):
             frame.locals['_i%d' % ordinal] = wrap(i)      # visible to invariants of inner loops
         st.assume(interp.truth(_call_pred(interp, spec.invariant, env(i))))
+        frame.loop_index[ordinal] = wrap(i)
         x = models.slist_elem(interp, xs, i)
         if enum_start is not None:
             x = (interp.binop(ast.Add, enum_start, wrap(i - start)), x)
@@ -447,6 +509,7 @@ def _for_symbolic(interp, node, frame, src):
         frame.locals['_i%d' % ordinal] = wrap(n)
     st.assume(start <= n)
     st.assume(interp.truth(_call_pred(interp, spec.invariant, env(z3.If(start <= n, n, start)))))
+    frame.loop_index[ordinal] = wrap(n)
     if it_cell is not None:
         it_cell.pos = wrap(n)
     if node.orelse:
